@@ -13,7 +13,7 @@ def fam_core(seed, i):
     """C01 C02 C12: submissions through all six handle kinds, bounded/unbounded, handlers with yields."""
     rng = random.Random(f"core-{seed}-{i}")
     sc = base("core", seed, i, rng)
-    cfg = {"cap": rng.choice([-1, -1, 0, 1, 1, 2, 3]), "pscr": [Y] * rng.choice([0, 1]), "sscr": [[Y] * rng.choice([0, 0, 1])]}
+    cfg = {"cap": rng.choice([-1, -1, 0, 1, 1, 2, 3]), "pscr": [Y] * rng.choice([0, 1, 2]), "sscr": [[Y] * rng.choice([0, 0, 1, 2, 3])]}
     ncl = rng.randint(1, 4)
     kinds = {f"c{k+1}": rng.choice(["addr", "addr", "sender", "caller", "wsender", "wcaller"]) for k in range(ncl)}
     keep = any(k.startswith("w") for k in kinds.values()) or rng.random() < 0.5
@@ -45,7 +45,7 @@ def fam_life(seed, i):
     rng = random.Random(f"life-{seed}-{i}")
     sc = base("life", seed, i, rng)
     owning = rng.random() < 0.5
-    cfg = {"cap": rng.choice([-1, -1, 0, 1, 2]), "pscr": [Y] * rng.choice([0, 1, 2]), "sscr": [[Y] * rng.choice([0, 1])], "owning": owning}
+    cfg = {"cap": rng.choice([-1, -1, 0, 1, 2]), "pscr": [Y] * rng.choice([0, 1, 2]), "sscr": [[Y] * rng.choice([0, 1, 1, 2, 3])], "owning": owning}
     ncl = rng.randint(1, 4)
     names = [f"c{k+1}" for k in range(ncl)]
     kinds = {c: rng.choice(ALLKINDS) for c in names}
@@ -85,7 +85,7 @@ def fam_fail(seed, i):
     sc = base("fail", seed, i, rng, horizon=12)
     owning = rng.random() < 0.5
     fault = rng.choice(["start_err", "start_panic", "handler_panic", "stopped_panic", "cancel", "timeout", "cancel", "handler_panic", "none"])
-    cfg = {"cap": rng.choice([-1, -1, 0, 1, 2]), "pscr": [Y] * rng.choice([0, 1]), "sscr": [[Y] * rng.choice([0, 1])], "owning": owning}
+    cfg = {"cap": rng.choice([-1, -1, 0, 1, 2]), "pscr": [Y] * rng.choice([0, 1, 2]), "sscr": [[Y] * rng.choice([0, 1, 1, 2, 3])], "owning": owning}
     if fault == "start_err":
         cfg["sscr"] = [[Y] * rng.choice([0, 1]) + [eff("err")]]
     elif fault == "start_panic":
@@ -141,7 +141,7 @@ def fam_awaiters(seed, i):
     rng = random.Random(f"awaiters-{seed}-{i}")
     sc = base("awaiters", seed, i, rng, horizon=6)
     end = rng.choice(["stop", "stop", "ctx_stop", "panic", "start_err", "stopped_panic", "cancel"])
-    cfg = {"cap": rng.choice([-1, -1, 1]), "pscr": [Y] * rng.choice([0, 1]), "sscr": [[Y] * rng.choice([0, 1])]}
+    cfg = {"cap": rng.choice([-1, -1, 1]), "pscr": [Y] * rng.choice([0, 1, 2]), "sscr": [[Y] * rng.choice([0, 1, 1, 2, 3])]}
     if end == "start_err":
         cfg["sscr"] = [[Y] * rng.choice([0, 1]) + [eff("err")]]
     elif end == "stopped_panic":
@@ -416,12 +416,72 @@ def fam_tree(seed, i):
     return sc
 
 
+def registry_respawn(sc, rng, types):
+    """The registered instance of a type ends - gracefully or by a failure, awaited by nobody - and then every operation
+    that depends on its liveness is tried: on-demand respawn (from_registry, setup), register-if-stopped (Addr::register,
+    the builder's register), the probes (try_from_registry, already_running).  C08 C14 C06."""
+    ty = rng.choice(types)
+    n = [0]
+
+    def fresh():
+        n[0] += 1
+        return f"x{n[0]}"
+
+    acnt = [0]
+    c1 = []
+    get = rng.choice(["from_registry", "from_registry", "setup", "spawn_register"])
+    h = fresh()
+    if get == "spawn_register":
+        acnt[0] += 1
+        tmp, old = fresh(), fresh()
+        c1 += [{"op": "spawn", "a": f"a{acnt[0]}", "nh": tmp, "cfg": {"ty": ty, "pscr": [Y] * rng.choice([0, 1]), "sscr": [[Y] * rng.choice([0, 1])]}, "entry": "builder_register"},
+               {"op": "register", "h": tmp, "nh": h, "nh2": old}]
+    elif get == "setup":
+        c1 += [{"op": "setup", "ty": ty}, {"op": "try_from_registry", "ty": ty, "nh": h}]
+    else:
+        c1.append({"op": "from_registry", "ty": ty, "nh": h})
+    kill = rng.choice(["stop", "ctx_stop", "panic", "panic", "drop_all"])
+    if kill == "stop":
+        c1.append({"op": "stop", "h": h})
+    elif kill == "ctx_stop":
+        c1.append({"op": "send", "h": h, "scr": [eff("ctx_stop")]})
+    elif kill == "panic":
+        c1.append({"op": "send", "h": h, "scr": [Y] * rng.choice([0, 1]) + [eff("panic")]})
+    c1 += [{"op": "yield"}] * rng.randint(1, 3)
+    for _ in range(rng.randint(1, 4)):
+        op = rng.choice(["setup", "setup", "from_registry", "try_from_registry", "already_running", "register", "spawn_register", "unregister"])
+        if op == "setup":
+            c1.append({"op": "setup", "ty": ty})
+        elif op in ("from_registry", "try_from_registry", "unregister"):
+            c1.append({"op": op, "ty": ty, "nh": fresh()})
+        elif op == "already_running":
+            c1.append({"op": op, "ty": ty})
+        else:
+            acnt[0] += 1
+            tmp, me, old = fresh(), fresh(), fresh()
+            c1.append({"op": "spawn", "a": f"a{acnt[0]}", "nh": tmp, "cfg": {"ty": ty, "pscr": [], "sscr": [[Y] * rng.choice([0, 1])]}, "entry": "builder_register" if op == "spawn_register" else "builder"})
+            c1.append({"op": "register", "h": tmp, "nh": me, "nh2": old})
+        c1 += [{"op": "yield"}] * rng.randint(0, 1)
+    c1 += [{"op": "try_from_registry", "ty": ty, "nh": fresh()}, {"op": "already_running", "ty": ty}]
+    sc["clients"]["main"] = [{"op": "yield"}]
+    sc["clients"]["c1"] = c1
+    if rng.random() < 0.4:
+        # a bystander using the same type concurrently
+        sc["clients"]["c2"] = [{"op": rng.choice(["from_registry", "already_running", "try_from_registry", "setup"]), "ty": ty, "nh": f"y{k}"} for k in range(rng.randint(1, 3))]
+        for o in sc["clients"]["c2"]:
+            if o["op"] in ("already_running", "setup"):
+                del o["nh"]
+    return sc
+
+
 def fam_registry(seed, i):
     """C08 C14: concurrent histories of the registry operations on 1-2 service types."""
     rng = random.Random(f"registry-{seed}-{i}")
     sc = base("registry", seed, i, rng, horizon=6)
     ntypes = rng.choice([1, 1, 2])
     types = ["1", "2"][:ntypes]
+    if rng.random() < 0.25:
+        return registry_respawn(sc, rng, types)
     ncl = rng.randint(1, 4)
     cl = [f"c{k+1}" for k in range(ncl)]
     handles = {c: {} for c in cl}
@@ -432,7 +492,9 @@ def fam_registry(seed, i):
     for k in range(nsp):
         c = rng.choice(cl)
         ty = rng.choice(types)
-        main.append({"op": "spawn", "a": f"a{k+1}", "nh": f"s{k+1}", "cfg": {"ty": ty, "pscr": [Y] * rng.choice([0, 1]), "sscr": [[Y] * rng.choice([0, 1])]}, "entry": "builder"})
+        # (some services use the registry themselves while they start: a Context::subscribe goes through its lock)
+        s0 = [Y] * rng.choice([0, 1]) + ([eff("subscribe", 1)] if rng.random() < 0.3 else [])
+        main.append({"op": "spawn", "a": f"a{k+1}", "nh": f"s{k+1}", "cfg": {"ty": ty, "pscr": [Y] * rng.choice([0, 1]), "sscr": [s0]}, "entry": "builder"})
         main.append({"op": "give", "h": f"s{k+1}", "to": c})
         handles[c][f"s{k+1}"] = "addr"
     if rng.random() < 0.3:
@@ -484,7 +546,7 @@ def fam_stream(seed, i):
     ended0 = shape in ("empty", "finite")
     cfg = {"cap": rng.choice([-1, -1, 0, 1, 2]), "strat": "none", "stream": True, "items0": items0, "ended0": ended0,
            "iscr": [Y] * rng.choice([0, 1, 1]), "fscr": [Y] * rng.choice([0, 1]), "pscr": [Y] * rng.choice([0, 1]),
-           "sscr": [[Y] * rng.choice([0, 1])], "owning": rng.random() < 0.3}
+           "sscr": [[Y] * rng.choice([0, 1, 1, 2, 3])], "owning": rng.random() < 0.3}
     if rng.random() < 0.08:
         cfg["sscr"] = [[eff("err")]]
     ncl = rng.randint(1, 3)
@@ -506,12 +568,45 @@ def fam_stream(seed, i):
     return sc
 
 
+def broker_then_drop(sc, rng):
+    """Subscribers that saw a publication and then lose their last strong handle, with no publication afterwards:
+    a subscription (and whatever the broker did while delivering) must not keep them alive (C05, C09)."""
+    T = rng.choice(["1", "2"])
+    nsub = rng.randint(1, 3)
+    subs = [f"a{k+1}" for k in range(nsub)]
+    main = []
+    for a in subs:
+        cfg = {"cap": rng.choice([-1, -1, 1]), "pscr": [Y] * rng.choice([0, 1]), "sscr": [[Y] * rng.choice([0, 1]) + [eff("subscribe", int(T))]], "owning": False}
+        main.append({"op": "spawn", "a": a, "nh": f"r_{a}", "cfg": cfg, "entry": "builder"})
+        main.append({"op": "clone", "h": f"r_{a}", "nh": f"h_{a}", "to": "c1"})
+        main.append({"op": "drop", "h": f"r_{a}"})
+    sc["clients"]["main"] = main
+    route = rng.choice(["publish", "publish", "actor"])
+    c1 = []
+    for _ in range(rng.randint(1, 3)):
+        c1.append({"op": "publish", "ty": T} if route == "publish" else {"op": "call", "h": f"h_{rng.choice(subs)}", "scr": [eff("publish", int(T))]})
+        c1 += [{"op": "yield"}] * rng.randint(0, 2)
+    c1 += [{"op": "yield"}] * rng.randint(1, 3)
+    for a in rng.sample(subs, len(subs)):
+        if rng.random() < 0.3:
+            c1.append({"op": "downgrade", "h": f"h_{a}", "nh": f"w_{a}", "to": "c1"})
+        c1.append({"op": "drop", "h": f"h_{a}"})
+        c1 += [{"op": "yield"}] * rng.randint(0, 1)
+    for a in subs:
+        if any(o.get("nh") == f"w_{a}" for o in c1):
+            c1 += [{"op": "yield"}, {"op": "upgrade", "h": f"w_{a}", "nh": f"u_{a}", "to": "c1"}, {"op": "stopped", "h": f"w_{a}"}]
+    sc["clients"]["c1"] = c1
+    return sc
+
+
 def fam_broker(seed, i):
     """C09: 1-3 publishers, 1-4 subscribers, 1-2 topics; subscribe / re-subscribe / unsubscribe / terminate anywhere;
     publishing through Broker::publish, Addr<Broker>::publish and Context::publish."""
     rng = random.Random(f"broker-{seed}-{i}")
     sc = base("broker", seed, i, rng, horizon=4)
     topics = ["1", "2"][:rng.choice([1, 1, 2])]
+    if rng.random() < 0.2:
+        return broker_then_drop(sc, rng)
     nsub = rng.randint(1, 4)
     subs = [f"a{k+1}" for k in range(nsub)]
     ncl = rng.randint(1, 3)
@@ -525,7 +620,9 @@ def fam_broker(seed, i):
                 s0.append(eff("subscribe", int(T)))
         if rng.random() < 0.15 and s0:
             s0.append(s0[-1])                      # subscribing twice must not duplicate deliveries
-        cfg = {"cap": rng.choice([-1, -1, -1, 0, 1, 2]), "pscr": [Y] * rng.choice([0, 1]), "sscr": [s0], "owning": False}
+        # (a restarted subscriber runs started() - and so its subscribe - again: still one subscription, one delivery)
+        cfg = {"cap": rng.choice([-1, -1, -1, 0, 1, 2]), "pscr": [Y] * rng.choice([0, 1]), "sscr": [s0], "owning": False,
+               "strat": rng.choice(["restart", "restart", "recreate", "recreate", "none"])}
         main.append({"op": "spawn", "a": a, "nh": f"r_{a}", "cfg": cfg, "entry": "builder"})
         holders = rng.sample(cl, rng.randint(1, len(cl)))
         for c in holders:
@@ -534,12 +631,13 @@ def fam_broker(seed, i):
             handles[c][f"h_{a}_{c}"] = {"clone": "addr", "caller": "caller", "sender": "sender"}[kind]
         main.append({"op": "drop", "h": f"r_{a}"})
     sc["clients"]["main"] = main
-    w = {"publish": 6, "try_publish": 1.5, "broker": 1.5, "bpublish": 4, "bsubscribe": 1.5, "bunsubscribe": 1.5, "send": 4, "call": 1, "yield": 3, "drop": 1.5, "stop": 1, "stopped": 0.3, "await": 0.3}
+    w = {"publish": 6, "try_publish": 1.5, "broker": 1.5, "bpublish": 4, "bsubscribe": 1.5, "bunsubscribe": 1.5, "send": 4, "call": 1, "yield": 3, "drop": 1.5, "stop": 1, "stopped": 0.3, "await": 0.3,
+         "restart": 1.5}
     cnt = [0]
     for c in cl:
         def scripts():
             T = int(rng.choice(topics))
-            return rng.choice([[], [eff("publish", T)], [eff("subscribe", T)], [eff("publish", T), Y], [eff("ctx_stop")], [Y]])
+            return rng.choice([[], [eff("publish", T)], [eff("subscribe", T)], [eff("publish", T), Y], [eff("ctx_stop")], [Y], [eff("ctx_restart")]])
         p = Prog(rng, c, handles[c], w, scripts, cnt)
         p.topics = topics
         sc["clients"][c] = p.run(rng.randint(2, 9))
@@ -564,7 +662,7 @@ def fam_mix(seed, i):
         return eff(kind, rng.randint(1, 3), f"t{tn[0]}")
 
     fault = rng.choice(["none", "none", "none", "panic", "cancel", "start_err", "stopped_panic"])
-    s0 = [Y] * rng.choice([0, 1])
+    s0 = [Y] * rng.choice([0, 1, 2, 3])
     if rng.random() < 0.35:
         s0 += [timer_eff() for _ in range(rng.choice([1, 1, 2]))]
     if rng.random() < 0.3:
@@ -575,7 +673,7 @@ def fam_mix(seed, i):
     s0 += [eff(bucket[x], 0, f"r_{x}") for x in kids]
     if fault == "start_err":
         s0 = s0 + [eff("err")]
-    pscr = [Y] * rng.choice([0, 1])
+    pscr = [Y] * rng.choice([0, 1, 2])
     if fault == "stopped_panic":
         pscr = pscr + [eff("panic")]
     elif rng.random() < 0.15:
